@@ -245,6 +245,19 @@ def s7_check(ctx, prop_id, cases, extra_filter=None):
         ctx.violations = ctx.violations[:5]
 
 
+def fallible_flows_ok(ctx, c, f):
+    """what C07_fallible_flows says of the registry, read off the implementation's own classification (S3):
+    a provider given a fallible class returns `error` upward and no longer outputs TerminalError downward"""
+    # (a fallible STATIC injector hands its error on downward, retyped: C07_static_error_visible)
+    where = f['out'] if f['class'] == 'fallible-static-injector' else f['ret']
+    if '20' not in where.split(',') or '21' in f['out'].split(','):
+        ctx.violations.append(('provider %s has class %s but its flows are ret=%s out=%s: its error is not a returned value '
+                               '(nobody has to receive it, it has no slot) or TerminalError is still a downward output (case %s)'
+                               % (f['id'], f['class'], f['ret'], f['out'], c.key), write_replay(ctx, 'case_%s.txt' % c.key, c.text()), True))
+        return False
+    return True
+
+
 def s7_prop(ctx, prop_id):
     ob, dis, details = proof_obligations(ctx, prop_id)
     cases = load_cases(ctx)
@@ -264,6 +277,7 @@ def s7_prop(ctx, prop_id):
                                                % (f['id'], f['class'], c.key), write_replay(ctx, 'case_%s.txt' % c.key, c.text()), True))
                     if f['class'] in ('fallible-injector', 'fallible-static-injector'):
                         n_te += 1
+                        fallible_flows_ok(ctx, c, f)
             ctx.cov['fallible_providers_classified'] = n_te
         if prop_id in ('C01', 'C02'):
             # which provider's value a parameter / a received value is matched to (interface matches through Loose, nearest
@@ -896,7 +910,11 @@ def c03(ctx):
 @prop('C15')
 def c15(ctx):
     def extra(ctx, c, kf):
-        pass
+        hdr, fs = dump_funcs(c, 'S3')
+        for f in fs or []:
+            if f['class'] in ('fallible-injector', 'fallible-static-injector'):
+                if not fallible_flows_ok(ctx, c, f):
+                    break
     rule = ('generated chains and invoke signatures incl. unreceived return types and shadowing wrappers; S5 correspondence (bind verdict, '
             'include flags) on every case; validators proved sound in Lean on the implementation\'s bound chain: every non-optional returned type '
             'of an included provider has an included receiver above; checkShadowing accepts the bound list; non-trivial = chain with a wrapper '
